@@ -1,6 +1,6 @@
 """Per-property metadata for MANIFEST.json."""
 
-HOOK_COMMITS = ["f2e7017", "f6e5a67", "bb708cb", "141a8af"]
+HOOK_COMMITS = ["f2e7017", "f6e5a67", "bb708cb", "141a8af", "0ae9e1c"]
 
 PAR_NOTE = ("Trusted: TLC, Sem.tla / SyncOps.tla, the harness and the hook events (emitted under the protecting lock). "
             "Schedules on the implementation are sampled (real OS threads, seeded jitter), not enumerated; universality "
